@@ -197,7 +197,13 @@ func (e *Env) RCursor(withFileOrder bool) {
 						e.Run.Check("R-CURSOR", fmt.Sprintf("comment list store in %s: %s", fname, exprOr(c, rhs)), e.Prog.Pos(s.Pos()), ok, why)
 					case e.isRestorerField(info, l, "cursorAtNewLine"):
 						nMarker++
-						ok := rhs != nil && (isCursor(rhs) || (e.isResetCtx(fd) && c.ExprStr(rhs) == "0"))
+						zero := false // 0, token.NoPos, token.Pos(0)
+						if rhs != nil {
+							if tv, okv := info.Types[rhs]; okv && tv.Value != nil && tv.Value.String() == "0" {
+								zero = true
+							}
+						}
+						ok := rhs != nil && (isCursor(rhs) || (e.isResetCtx(fd) && zero))
 						e.Run.Check("R-CURSOR", fmt.Sprintf("fresh-line marker store in %s: %s", fname, exprOr(c, rhs)), e.Prog.Pos(s.Pos()), ok,
 							"the marker must be the cursor itself (position directly after a line break)")
 					default:
